@@ -7,7 +7,7 @@ liveness WaitTerminates under weak fairness)  +  binding to app/core/hydra/swamp
   verifhook.Yield gates (between the decrement and the Broadcast; between the emptiness check and cond.Wait).
   Schedules come from TLC: (1) shortest paths to every stuck state of the as-built state graph (the lost
   wake-up witnesses), (2) one shortest path per transition of the strict and of the as-built state graph,
-  (3) seeded random gate schedules.  After every command the driver waits for a point of rest (goroutine wait
+  (3) seeded random gate schedules, (4) three schedules on real swamps with swamp.Destroy() as the waiter.  After every command the driver waits for a point of rest (goroutine wait
   states: gate / sync.Cond.Wait / mutex) and logs the observation; the log is validated by TLC against
   Trace_Vigil (unlogged internal steps are searched).  A run that only the deviation "LostWakeup" explains is
   the known finding D_C17_LostWakeup; a run no spec explains, or a stuck wait that the deviation does not
@@ -114,6 +114,10 @@ class Batch:
     def run_random(self, kind, runs, nops, nw, steps, seed):
         return self._part(kind, ["random", "@TRACE", "@RES", str(runs), str(nops), str(nw), str(steps)], runs, env={"VERIF_SEED": str(seed)})
 
+    def run_destroy(self):
+        """The same gates one level up: swamp.Destroy() of real swamps (own process, one rig)."""
+        return self._part("swamp-destroy", ["destroy", "@TRACE", "@RES"], 3)
+
     def run_lines(self, i):
         a = self.results[i]["first_line"] - 1
         b = self.results[i + 1]["first_line"] - 1 if i + 1 < len(self.results) else len(self.lines)
@@ -197,8 +201,9 @@ def judge(ctx, batch):
                                 "in schedule %s (+drain): observed %s" % (sched, [json.loads(x)["obs"] for x in batch.run_lines(i)][-4:]), replay)
         elif v == "dev":
             if stuck:
-                ctx.deviation(FID, "lost wake-up reproduced on the real vigil: after %s every operation has finished (HasActiveVigils()=false) and "
-                                   "nobody is running, yet the waiter is parked in sync.Cond.Wait forever: %s" % (sched, res.get("stuck_obs")), replay)
+                where = "a real swamp: swamp.Destroy()" if res["kind"] == "swamp-destroy" else "the real vigil: the waiter"
+                ctx.deviation(FID, "lost wake-up reproduced on %s is parked in sync.Cond.Wait forever after %s although every operation has finished "
+                                   "(HasActiveVigils()=false) and nobody is running: %s" % (where, sched, res.get("stuck_obs")), replay)
             else:
                 ctx.deviation(FID, "CeaseVigil decrements/broadcasts without the waiters' mutex (observed between a waiter's check and its cond.Wait) in schedule %s" % sched, replay)
         elif stuck:
@@ -294,6 +299,7 @@ def run(ctx):
     # 3. the witnesses, one path per transition of the strict / as-built state graphs, and seeded random gate
     #    schedules (3 operations, 3 waiters), all on the real vigil; one log, validated by TLC
     b.run_tests("witness", wit_run)
+    b.run_destroy()
     b.run_tests("edges-strict", cs)
     b.run_tests("edges-asbuilt", ca)
     for k in range(4 if thorough else 1):
@@ -303,6 +309,7 @@ def run(ctx):
     ctx.extra["driver_wall_s"] = round(b.driver_wall, 1)
     ctx.extra["witness_schedules"] = len(wit_run)
     ctx.extra["witness_reproduced_stuck"] = verd["witness"]["stuck"]
+    ctx.extra["swamp_destroy_stuck"] = verd["swamp-destroy"]["stuck"]
     ctx.cov["evaluations"] += len(b.lines)
     ctx.sample(dict(kind="lost wake-up witness (TLC, as-built spec) and what the real vigil did",
                     cmds=[c["a"] + ":" + c["p"] for c in wit_run[0]], observed=[json.loads(x)["obs"] for x in b.run_lines(0)][1:len(wit_run[0]) + 1],
@@ -314,7 +321,8 @@ def run(ctx):
     # 4. binding self-test (thorough): a corrupted / truncated log must be rejected
     if thorough:
         lines = b.lines[:b.results[len(wit_run)]["first_line"] - 1]
-        idx = [i for i, l in enumerate(lines) if '"CFinish"' in l]
+        # a CFinish line in the middle of a run (the last line of a run can be dropped unnoticed: the log just ends earlier)
+        idx = [i for i, l in enumerate(lines[:-1]) if '"CFinish"' in l and '"ev":"cmd"' in lines[i + 1]]
         i = idx[len(idx) // 2]
         e = json.loads(lines[i])
         e["has"] = 1 - e["has"]
